@@ -176,19 +176,38 @@ class C19Scenario(object):
 
     def __init__(self, tier="quick"):
         self.tier = tier
-        self.maxlen = 3 if tier == "quick" else 4
-        scripts = c19_scripts(self.maxlen)
-        self.enumerated = []
-        for fam in ("tcp", "unix"):
-            for cw in (0, 1, 2):
-                for sc in scripts:
-                    self.enumerated.append({"family": fam, "script": sc, "closed_write": cw, "seg": "whole"})
-        self.must_cover = len(self.enumerated)
+        self.maxlen = 3 if tier == "quick" else 5
+        self.alpha = peermod.FAULTS + ["ok"]  # the last symbol of a script is never "ok"
+        nf, na = len(peermod.FAULTS), len(self.alpha)
+        # scripts of length L that do not end in a healthy symbol: na^(L-1) * nf; plus the empty script
+        self.counts = [1] + [na ** (L - 1) * nf for L in range(1, self.maxlen + 1)]
+        self.nscripts = sum(self.counts)
+        self.must_cover = self.nscripts * 6
         self.args = {"tier": tier}
 
+    def script_for(self, k):
+        """The k-th script in length-then-lexicographic order (computed, never stored)."""
+        L = 0
+        while k >= self.counts[L]:
+            k -= self.counts[L]
+            L += 1
+        if L == 0:
+            return []
+        nf, na = len(peermod.FAULTS), len(self.alpha)
+        last = k % nf
+        k //= nf
+        out = [peermod.FAULTS[last]]
+        for _ in range(L - 1):
+            out.append(self.alpha[k % na])
+            k //= na
+        out.reverse()
+        return out
+
     def program_for(self, index, rng):
-        if index < len(self.enumerated):
-            return self.enumerated[index]
+        if index < self.must_cover:
+            cfg, k = divmod(index, self.nscripts)
+            fam, cw = divmod(cfg, 3)
+            return {"family": ("tcp", "unix")[fam], "script": self.script_for(k), "closed_write": cw, "seg": "whole"}
         return self.generate(rng)
 
     def generate(self, rng):
